@@ -131,6 +131,30 @@ Theorem C30_scheduler_all_return : forall c prefer sc,
   let '(st, tr, ob) := sim_script true prefer (init c, [], []) sc in waiting st = [] /\ woken st = [].
 Proof. exact simulate_all_return. Qed.
 
+(* The acceptor's per-instant clauses, proved of the model for every instant the replay scheduler goes
+   through (a scripted call or a timer callback, then every woken caller runs, in any order), from any
+   state satisfying the reachability invariant: the callers that ran are split into granted / refused /
+   blocked again, with
+     - exact accounting: held afterwards = held before + the sum of the granted weights (no wrap-around),
+     - the bound,
+     - every refusal justified: does not fit even at the end of the instant, and exceeds the capacity or
+       its deadline has been reached,
+     - every caller blocked again justified: does not fit, does not exceed, deadline ahead,
+     - nobody left runnable.
+   [drained] is the record of these clauses.  What remains between this and "spec_check accepts the
+   scheduler's output for every script" is only the acceptor's bookkeeping (digest_of, the sorted list of
+   instants, lookup of a caller's return by id), which is exercised on every case (model_spec_ok). *)
+Theorem C30_instant_clauses : forall c prefer s now e0,
+  inv c (fst (fst s)) -> ev_wf e0 ->
+  let s1 := sim_step true s now e0 in
+  let s' := drain_all true prefer s1 now in
+  inv c (fst (fst s')) /\
+  exists kept granted refused, drained c now (fst (fst s1)) (fst (fst s')) kept granted refused.
+Proof. exact instant_clauses. Qed.
+(* the invariant used above holds in every reachable state *)
+Theorem C30_reachable_inv : forall c st, m_wf c -> reachable c st -> inv c st.
+Proof. exact reachable_inv. Qed.
+
 (* non-vacuity: a reachable state with held > 0 and two runnable waiters, one that fits and one
    that does not *)
 Example C30_nonvacuous : reachable (mkM 2 20) ex_state /\
@@ -155,3 +179,5 @@ Print Assumptions C30_timeout.
 Print Assumptions C30_scheduler_is_run.
 Print Assumptions C30_scheduler_quiescent.
 Print Assumptions C30_scheduler_all_return.
+Print Assumptions C30_instant_clauses.
+Print Assumptions C30_reachable_inv.
